@@ -532,12 +532,11 @@ def spec_add(items):
     for j, it in enumerate(flat):
         if it[0] != "M":
             continue
-        if it[2] is None:
-            names[j] = "register%d" % nm
-        else:
-            if any(final_in(j, i) and names[i] == it[2] for i in names):
-                return "ERR %d | %s" % (src[j], _s([i for i in names if final_in(j, i)]))
-            names[j] = it[2]
+        name = "register%d" % nm if it[2] is None else it[2]
+        # explicit and default names are both checked against the still-terminal measurements
+        if any(final_in(j, i) and names[i] == name for i in names):
+            return "ERR %d | %s" % (src[j], _s([i for i in names if final_in(j, i)]))
+        names[j] = name
         nm += 1
     L = len(flat)
     fin = [i for i in range(L) if final_in(L, i)]
@@ -1642,6 +1641,17 @@ def add_suite(ctx):
             items += [("M", [q], None, False, "Z") for q in qs]
             items.append(("G", "U" if len(qs) > 3 else rng.choice(["U", "ctrl"]), qs[:3] if rng.random() < 0.7 else qs[-3:]))
         cases.append((n, items))
+    # (d) default-name clash (repaired defect): an explicit "register<k>" still terminal when the
+    # k-th measurement gate arrives without a name -> KeyError; no clash once it is collapsing
+    for n_, pre in ((2, [("M", [0], "register1", False, "Z")]),
+                    (3, [("M", [0], None, False, "Z"), ("M", [1], "register2", False, "Z")]),
+                    (3, [("M", [2, 0], "register1", False, "ZX")]),
+                    (3, [("G", "H", [0]), ("M", [0], "register2", False, "Z"), ("M", [0], None, True, "Z")])):
+        free = [q for q in range(n_) if all(it[0] != "M" or q not in it[1] for it in pre)]
+        cases.append((n_, pre + [("M", [free[0]], None, False, "Z")]))
+        cases.append((n_, pre + [("M", [free[0]], None, True, "Z")]))
+        hit = next(it[1][0] for it in pre if it[0] == "M" and it[2] is not None)
+        cases.append((n_, pre + [("G", "X", [hit]), ("M", [free[0]], None, False, "Z")]))
     lines = [f"ADD {len(items)} " + " ".join(add_item_tokens(it) for it in items) for _, items in cases]
     mouts = run_driver(lines, driver=DRIVER)
     bad = sbad = 0
@@ -1657,6 +1667,8 @@ def add_suite(ctx):
         spec = " ".join(H["spec_add"](items).split())
         if real.startswith("ERR"):
             ctx.stat("add_rejected")
+            if items[int(real.split()[1])][2] is None:
+                ctx.stat("add_rejected_default_name")
         if len(ctx.samples) < 11 and len(items) >= 5 and real.count("M:") >= 2:
             ctx.sample({"suite": "add", "n": n, "calls": descr, "bookkeeping": real})
         if model != spec:
@@ -1666,6 +1678,8 @@ def add_suite(ctx):
             bad += 1
             nM = sum(1 for it in items if it[0] == "M")
             key = "circuit-add:" + ("rejected" if real.startswith("ERR") or model.startswith("ERR") else "measurements" if real.split("|")[1:2] != model.split("|")[1:2] else "queue")
+            if spec.startswith("ERR") and not real.startswith("ERR") and items[int(spec.split()[1])][2] is None:
+                key = "circuit-add:default-name-clash"
             py = (replay_header() + f"# Circuit({n}).add of: " + "; ".join(descr) + f"\nitems = {items!r}\n"
                   f"obs = ' '.join(observe_add({n}, items).split())\nexp = ' '.join(spec_add(items).split())\n"
                   "# format: queue (M:targets:register:collapse / G:qubits) | positions of circuit.measurements | has_collapse | measurement_tuples\n"
